@@ -9,3 +9,4 @@ cd "$(dirname "$0")"
 ./seed_all.sh seeded/round3
 ./seed_all.sh seeded/round4
 ./seed_all.sh seeded/round5
+./seed_all.sh seeded/round6
